@@ -43,7 +43,8 @@ TargetReq(k)      == [r |-> "target", k |-> k, p |-> "-", c |-> "-", item |-> {{
 ItemReq(p, c, it) == [r |-> "item", k |-> 0, p |-> p.id, c |-> c, item |-> it]
 ReqsOf(p) == UNION {{ItemReq(p, c, it) : it \in {i \in p.deps[c] : ~IsBlockItem(i)}} : c \in Classes}
 
-Init == /\ ci \in DOMAIN FamilySeq
+\* (the session part has the longest interleavings: at the tiny level it is left to the larger levels)
+Init == /\ ci \in {i \in DOMAIN FamilySeq : Level # "tiny" \/ FamilySeq[i].fam # "session"}
         /\ kind \in {"upgrade", "min"}
         /\ ops = <<>>
         /\ finI = Ids(Vdb(w))
